@@ -181,8 +181,10 @@ class Check:
         ev = {'property_id': self.pid, 'tier': self.tier, 'seed': int(self.seed), 'level': self.level, 'coverage': cov,
               'assumptions': self.assumptions, 'wall_s': round(time.time() - self.t0, 2), 'violations': len(real_violations),
               'known_findings_matched': len(self.known_lines)}
-        with open(os.path.join(EVID, f'{self.pid}.json'), 'w') as fh:
-            json.dump(ev, fh, indent=1, default=str)
+        # evidence describes /repo itself: runs against a seeded / scratch tree (tools/try_seed.sh, VERIF_REPO) set VERIF_NO_EVIDENCE and leave it alone
+        if not os.environ.get('VERIF_NO_EVIDENCE'):
+            with open(os.path.join(EVID, f'{self.pid}.json'), 'w') as fh:
+                json.dump(ev, fh, indent=1, default=str)
         for l in self.known_lines: print(l)
         for l in lines: print(l)
         for u in self.undecided[:10]: print(f"UNDECIDED property={self.pid} what={u['what']} why={u['why']}")
